@@ -197,7 +197,7 @@ fn render_body(body: &[Stmt], loop_vars: &[String], sp: &mut Speller, out: &mut 
             }
             Stmt::Set(n, v) => out.push(format!("{} = set {}", n, v)),
             Stmt::Return(v) => match v {
-                Some(v) => out.push(format!("{} {}", sp.pick(Kw::Return), v)),
+                Some(v) => out.push(format!("{} {}", sp.pick(Kw::Return), crate::render::render_arg(v, crate::render::needs_quotes(v, false, true)))),
                 None => out.push(sp.pick(Kw::Return).to_string()),
             },
             Stmt::Call { func, out: o, args, position, id } => {
